@@ -136,4 +136,53 @@ theorem markAsEnd_forced (p : Nat) (e : End) (a : A) :
 @[simp] theorem abrupt_b (x : Compl) : x.abrupt.b = x.b := rfl
 @[simp] theorem abrupt_c (x : Compl) : x.abrupt.c = x.c := rfl
 
+/-! ### labelled continues -/
+/-- some labelled `continue` is among the completions -/
+def Compl.hasCl (x : Compl) : Bool := !x.cl.isEmpty
+
+theorem hasCl_append (x y : List Id) : (!(x ++ y).isEmpty) = (!x.isEmpty || !y.isEmpty) := by
+  cases x <;> cases y <;> rfl
+
+@[simp] theorem seq_hasCl (x y : Compl) : (x.seq y).hasCl = (x.hasCl || (x.n && y.hasCl)) := by
+  unfold Compl.seq Compl.hasCl; cases h : x.n <;> simp [Compl.union, Compl.abrupt, hasCl_append]
+@[simp] theorem union_hasCl (x y : Compl) : (x.union y).hasCl = (x.hasCl || y.hasCl) := by
+  simp [Compl.union, Compl.hasCl, hasCl_append]
+@[simp] theorem evalCompl_hasCl (k : Kids) : (evalCompl k).hasCl = false := rfl
+@[simp] theorem testCompl_hasCl (tt : Bool) (k : Kids) : (testCompl tt k).hasCl = false := by
+  unfold testCompl; split <;> rfl
+@[simp] theorem normal_hasCl : Compl.normal.hasCl = false := rfl
+@[simp] theorem guard_hasCl (g : Bool) (x : Compl) : (Compl.guard g x).hasCl = (g && x.hasCl) := by
+  unfold Compl.guard; cases g <;> simp [Compl.hasCl]
+@[simp] theorem abrupt_hasCl (x : Compl) : x.abrupt.hasCl = x.hasCl := rfl
+
+theorem filter_nonempty {α : Type} (f : α → Bool) (l : List α) (h : (!(l.filter f).isEmpty) = true) : (!l.isEmpty) = true := by
+  cases l with
+  | nil => simp at h
+  | cons a r => rfl
+
+theorem loopCompl_hasCl (ls : List Id) (x : Bool) (b : Compl) (h : (loopCompl ls x b).hasCl = true) : b.hasCl = true :=
+  filter_nonempty _ _ h
+
+/-- no labelled `continue`: nothing continues to a label -/
+theorem any_of_not_hasCl (x : Compl) (f : Id → Bool) (h : x.hasCl = false) : x.cl.any f = false := by
+  unfold Compl.hasCl at h
+  cases hc : x.cl with
+  | nil => rfl
+  | cons a r => rw [hc] at h; simp at h
+
+/-! ### throw completions -/
+@[simp] theorem seq_t (x y : Compl) : (x.seq y).t = (x.t || (x.n && y.t)) := by
+  unfold Compl.seq; cases h : x.n <;> simp [Compl.union, Compl.abrupt]
+@[simp] theorem union_t (x y : Compl) : (x.union y).t = (x.t || y.t) := rfl
+@[simp] theorem evalCompl_t (k : Kids) : (evalCompl k).t = k.mayThrow := rfl
+theorem testCompl_t (tt : Bool) (k : Kids) : (testCompl tt k).t = (!tt && k.mayThrow) := by
+  unfold testCompl; cases tt <;> simp [evalCompl]
+@[simp] theorem normal_t : Compl.normal.t = false := rfl
+@[simp] theorem guard_t (g : Bool) (x : Compl) : (Compl.guard g x).t = (g && x.t) := by
+  unfold Compl.guard; cases g <;> simp
+@[simp] theorem abrupt_t (x : Compl) : x.abrupt.t = x.t := rfl
+@[simp] theorem loopCompl_t (ls : List Id) (x : Bool) (b : Compl) : (loopCompl ls x b).t = b.t := rfl
+
+@[simp] theorem setEnd_mayThrow (a : A) (e : Option End) : (a.setEnd e).sc.mayThrow = a.sc.mayThrow := rfl
+
 end DL.CF
